@@ -1,5 +1,5 @@
 """C32 — generated deployment ids are valid DNS-1035 labels of at most 63 characters, derived from the name's
-lowercase alphanumerics, with a random suffix when the processed name is too short.
+lowercase alphanumerics, with a random suffix when the name has fewer than three of them.
 
 ``k8s_client.py`` needs ``kubernetes`` at module scope, so ``find_deployment_id`` / ``_append_random_suffix`` are
 LIFTED BY AST from the current file (vlib.h_tools.lift) and the DNS-1035 regex is read by AST from
@@ -17,8 +17,9 @@ LIFTED BY AST from the current file (vlib.h_tools.lift) and the DNS-1035 regex i
   regex of deployments.py (position-set encoding of the regex over the array) — which implies length <= 63.
 * ob_tail_derivation (Engine T, same encoding): every returned id is a prefix of P+s (P = "d-" iff s starts with a
   digit) reaching min(|P+s|, 63)-1, or such a prefix (>= min(|P+s|,57)-1 long) + "-" + the 5 drawn hex digits, or —
-  only when s is empty — the 5 drawn digits with a letter forced in front; a suffix is present whenever |P+s| < 3; no
-  suffix when |P+s| >= 3, not forced, and the first availability check succeeds.
+  only when s is empty — the 5 drawn digits with a letter forced in front; a suffix is present whenever the name has fewer
+  than three alphanumerics (= non-hyphen characters of s); no suffix when it has three or more, none is forced, and the first
+  availability check succeeds.
 * ob_end_to_end (Engine S): the whole lifted function on names assembled from a pool of characters (upper case,
   digits, hyphen, space, non-ASCII incl. characters whose lower() is special) — ties the pieces together
   (``lower()``, the split point) and checks the statement directly on short names.
@@ -80,9 +81,6 @@ OUTSIDE = [
     "sanitised strings longer than 80 characters (names whose processed form is longer; the [:63] cut makes longer tails irrelevant, "
     "but the bounded encoding stops there)",
     "the ValueError after 99 unavailable candidates (environment-driven); explicit_id / reserved-id handling in create_deployment",
-    "unspecified: names with fewer than three alphanumerics whose processed form is >= 3 characters long get NO suffix "
-    "today ('a-b' -> 'a-b', '1' -> 'd-1', '12' -> 'd-12'); the statement's 'carries a random suffix otherwise' can be read "
-    "on the name or on the processed id — only 'processed id shorter than 3 => suffix' is asserted",
     "unspecified: when the suffix is appended to a 57-character cut ending in '-', the id contains '--' (still DNS-1035)",
 ]
 
@@ -250,8 +248,8 @@ def _check_id(name: str, force: bool, avail0: bool, hex0: str, alpha0: str, rid:
         return False
     if len(alnum) >= 3 and len(p) < 3:
         return False
-    if len(base) < 3 and not has_suffix:          # too short => random suffix
-        return False
+    if len(alnum) < 3 and not has_suffix:         # fewer than three alphanumerics in the NAME => random suffix (the statement, literally:
+        return False                               # separators and the "d-" prefix pad the id without adding to the name)
     if len(alnum) >= 3 and not force and avail0 and has_suffix and stem != rid:
         return False                               # nothing forces a suffix here
     return True
@@ -376,13 +374,19 @@ class _Enc:
         body, head, first_if, var = _split()
         # the sanitiser statements are executed by ob_sanitiser; here their result is the symbolic string s
         self.sanitiser_patterns = []
+        post_sanitiser: List[Any] = []   # assignments between the last re.sub and the first `if`: they read the SANITISED id
         for st in body[head + 1:first_if]:
             v = st.value
-            if not (isinstance(v, ast.Call) and isinstance(v.func, ast.Attribute) and v.func.attr == "sub"
-                    and isinstance(v.func.value, ast.Name) and v.func.value.id == "re"
-                    and all(isinstance(a, ast.Constant) for a in v.args[:2])):
-                raise T.Untranslatable("sanitiser statement is not re.sub(<literal>, <literal>, id)")
-            self.sanitiser_patterns.append((v.args[0].value, v.args[1].value))
+            is_sub = (isinstance(v, ast.Call) and isinstance(v.func, ast.Attribute) and v.func.attr == "sub"
+                      and isinstance(v.func.value, ast.Name) and v.func.value.id == "re"
+                      and all(isinstance(a, ast.Constant) for a in v.args[:2]))
+            if is_sub and not post_sanitiser and isinstance(st.targets[0], ast.Name) and st.targets[0].id == var:
+                self.sanitiser_patterns.append((v.args[0].value, v.args[1].value))
+            elif not is_sub and isinstance(st.targets[0], ast.Name) and st.targets[0].id != var:
+                post_sanitiser.append(st)            # translated below, with the id bound to the symbolic sanitised string
+            else:
+                raise T.Untranslatable("statement before the first `if` is neither re.sub(<literal>, <literal>, id) into the id nor "
+                                       "a later assignment to another variable")
         interp = T.Interp(be, functions={"_append_random_suffix": sfx},
                           intrinsics={"random.choices": i_choices, "random.choice": i_choice,
                                       "validate_deployment_id": i_validate}, unroll=unroll, merge=True)
@@ -393,6 +397,9 @@ class _Enc:
         env0[var] = self.s
         env0["force_suffix"] = self.force
         env0["name"] = T.Opaque("name")
+        for st in post_sanitiser:
+            for g, kind, val, e in interp.stmt(st, env0, True):
+                env0 = e
         self.outcomes = [(g, kind, val) for g, kind, val, _e in interp.block(body[first_if:], env0, True)]
         # assumptions
         cls = lambda c: z3.Or(z3.And(c >= 97, c <= 122), z3.And(c >= 48, c <= 57), c == 45)  # noqa: E731
@@ -485,9 +492,10 @@ def _native_derivation(w, unroll=None) -> bool:
             shapes.append("only-suffix")
     if not shapes:
         return False
-    if len(ps) < 3 and "plain" in shapes and not ("suffix" in shapes or "only-suffix" in shapes):
+    na = len(_proj(s))                                # the name's lowercase alphanumerics (s has the same projection: ob_sanitiser)
+    if na < 3 and "plain" in shapes and not ("suffix" in shapes or "only-suffix" in shapes):
         return False
-    if len(ps) >= 3 and not w["force"] and avail[0] and "plain" not in shapes:
+    if na >= 3 and not w["force"] and avail[0] and "plain" not in shapes:
         return False
     return True
 
@@ -604,13 +612,15 @@ def _min(a, b):
 
 @smt_obligation(quick=120, thorough=300,
                 what="derivation: every returned id is a (long enough) prefix of P+s, optionally followed by '-' + the five drawn "
-                     "hex digits, or the drawn digits alone when s is empty; suffix present when |P+s| < 3; absent when "
-                     "|P+s| >= 3, not forced and the first availability check succeeds",
+                     "hex digits, or the drawn digits alone when s is empty; suffix present when the name has fewer than three "
+                     "alphanumerics; absent when it has at least three, nothing forces one and the first availability check succeeds",
                 bounds={"sanitised length": "0..80", "retry loop": "unrolled UNROLL times"})
 def ob_tail_derivation(ctx):
     enc = _Enc(UNROLL)
     be = enc.be
     ps = _spec_ps(enc)
+    # number of alphanumerics of the name = number of non-hyphen characters of s (s has the name's [a-z0-9] projection: ob_sanitiser)
+    nalnum = z3.Sum(*[z3.If(z3.And(i < enc.n, c != 45), 1, 0) for i, c in enumerate(enc.chars)])
     viol = []
     seen: Dict[str, List[Any]] = {"plain": [], "suffix": [], "only-suffix": []}
     for g, r in enc.returned():
@@ -627,8 +637,8 @@ def ob_tail_derivation(ctx):
         seen["plain"].append(z3.And(g, plain))
         has_sfx = z3.Or(*sfx)
         ok = z3.And(z3.Or(plain, has_sfx),
-                    z3.Implies(ps.n < 3, has_sfx),
-                    z3.Implies(z3.And(ps.n >= 3, z3.Not(enc.force), enc.avail[0]), plain))
+                    z3.Implies(nalnum < 3, has_sfx),
+                    z3.Implies(z3.And(nalnum >= 3, z3.Not(enc.force), enc.avail[0]), plain))
         viol.append(z3.And(g, z3.Not(ok)))
     viol += enc.bad_outcomes() + enc.unsafe()
     ctx.check("derivation", assumptions=enc.assumptions(), negated_property=z3.Or(*viol), variables=enc.variables(),
